@@ -117,3 +117,12 @@ Definition run_process (archid os : Z)
             option_map Z.of_nat req)
   | _ => None
   end.
+
+(* B cases (round 5): an amd64 crash one flipped bit away from a mapped page; [regs] = the values of the context's valid registers.
+   (count of nearby registers, index into NEARBY_REGISTER | -1 for no access); None = panic *)
+Definition run_nearby (good : Z) (regs : list Z) : option (Z * Z) :=
+  match nearby_site Debug good regs with
+  | Ret (n, Some i) => Some (n, i)
+  | Ret (n, None) => Some (n, -1)
+  | _ => None
+  end.
